@@ -1,8 +1,10 @@
 (* Loader/Run.v — evaluation of per-run case files for the document-loader model
    (C19).  A case is a whole history: configuration, operations, and what the
    real loader did at every Load (outcome + requests that reached the scripted
-   origin), plus the final content of the cache engine.  Numbers are primitive
-   ints, strings are interned by the case file. *)
+   origin), plus the final content of the cache engine (through Get, and the raw
+   map through the verif hook).  Numbers are primitive ints, strings are interned
+   by the case file.  The answers of pquerna/cachecontrol and of http.NewRequest
+   are recorded tables; a miss is a disagreement. *)
 From Coq Require Import ZArith NArith List String Ascii Bool Uint63.
 From GSP Require Import Base.Prelude Base.Decode Loader.Model.
 Import ListNotations.
@@ -18,26 +20,74 @@ Definition policy_of (k : int) (n : Z) : option policy :=
   | 5 => Some PNoStore | 6 => Some PPrivate | 7 => Some (PPrivateMaxAge n)
   | 8 => Some PNone | 9 => Some PNoCache | 10 => Some PExpiresInvalid
   | 11 => Some PMalformed | 12 => Some (PBadDate n)
+  | 13 => Some (PNoStoreMaxAge n) | 14 => Some (PMustRevalidate n) | 15 => Some (PNoCacheMaxAge n)
   | _ => None
   end%Z.
 
-Definition fkind_of (k : int) : option fkind :=
-  match zi k with
-  | 0 => Some FTransport | 1 => Some FStatus | 2 => Some FBody | _ => None
+Definition policy_code (p : policy) : Z * Z :=
+  match p with
+  | PMaxAge n => (0, n) | PSMaxAge n => (1, n) | PPublicMaxAge n => (2, n)
+  | PExpiresDate n => (3, n) | PExpires n => (4, n)
+  | PNoStore => (5, 0) | PPrivate => (6, 0) | PPrivateMaxAge n => (7, n)
+  | PNone => (8, 0) | PNoCache => (9, 0) | PExpiresInvalid => (10, 0)
+  | PMalformed => (11, 0) | PBadDate n => (12, n)
+  | PNoStoreMaxAge n => (13, n) | PMustRevalidate n => (14, n) | PNoCacheMaxAge n => (15, n)
   end%Z.
+
+Definition policy_eqb (a b : policy) : bool :=
+  let '(ka, na) := policy_code a in
+  let '(kb, nb) := policy_code b in
+  Z.eqb ka kb && Z.eqb na nb.
+
+(* ---- the recorded cachecontrol table ---- *)
+(* CCE kind neg n store has_lifetime lneg l : for the header set (kind, +-n) the library said
+   store (no error, no reasons) and returned an expiry of call time +-l seconds, or the zero time *)
+Inductive ccentry := CCE (pk : int) (neg : bool) (n : int) (store : bool)
+                         (haslt : bool) (lneg : bool) (l : int).
+
+Definition cc_of_table (tab : list ccentry) (p : policy) : option ccdec :=
+  match find (fun e => match e with
+                       | CCE pk neg n _ _ _ _ =>
+                           match policy_of pk (zs neg n) with
+                           | Some q => policy_eqb p q
+                           | None => false
+                           end
+                       end) tab with
+  | Some (CCE _ _ _ store haslt lneg l) => Some (store, if haslt then Some (zs lneg l) else None)
+  | None => None
+  end.
+
+(* the assumption of Theory.load_no_reuse_headers, checked on the recorded table *)
+Definition forbids_b (p : policy) : bool :=
+  match p with PNoStore | PPrivate | PPrivateMaxAge _ | PNoStoreMaxAge _ => true | _ => false end.
+Definition no_freshness_b (p : policy) : bool :=
+  match p with PNone | PNoCache | PExpiresInvalid => true | _ => false end.
+
+Definition cc_table_respects_headers (tab : list ccentry) : bool :=
+  forallb (fun e => match e with
+                    | CCE pk neg n store haslt _ _ =>
+                        match policy_of pk (zs neg n) with
+                        | Some p => (if forbids_b p then negb store else true) &&
+                                    (if no_freshness_b p then negb haslt else true)
+                        | None => false
+                        end
+                    end) tab.
 
 (* operations as written in case files *)
 Inductive rop :=
-| RServe (u : string) (v : int) (pk : int) (neg : bool) (n : int)
-| RFail (u : string) (fk : int)
+| RServe (u : string) (code : int) (json : bool) (v : int) (pk : int) (neg : bool) (n : int)
+| RDown (u : string)                 (* transport failure from now on *)
 | RLoad (u : string)
 | RTick (dt : int).
 
 Definition op_of (r : rop) : option op :=
   match r with
-  | RServe u v pk neg n =>
-      match policy_of pk (zs neg n) with Some p => Some (Serve u (zi v) p) | None => None end
-  | RFail u fk => match fkind_of fk with Some k => Some (Fail u k) | None => None end
+  | RServe u code json v pk neg n =>
+      match policy_of pk (zs neg n) with
+      | Some p => Some (Serve u (RResp (zi code) (if json then BJson (zi v) else BGarbage) p))
+      | None => None
+      end
+  | RDown u => Some (Serve u RTransport)
   | RLoad u => Some (Load u)
   | RTick dt => Some (Tick (Z.to_N (zi dt)))
   end.
@@ -76,26 +126,27 @@ Definition mode_of (m : int) (emb : list (string * int)) : option cache_mode :=
   | _ => None
   end%Z.
 
-Definition cfg_of (r : rcfg) : option config :=
+Definition cfg_of (cctab : list ccentry) (r : rcfg) : option config :=
   match r with
   | RCfg m emb cli gw tab =>
       match mode_of m emb with
       | Some cm =>
           Some {| cache_mode_of := cm; ipfs_client := cli; gateway := gw;
-                  url_ok := fun u => match lookup_s u tab with Some b => b | None => false end |}
+                  url_ok := fun u => match lookup_s u tab with Some b => b | None => false end;
+                  cc := fun p => match cc_of_table cctab p with Some d => d | None => (false, None) end |}
       | None => None
       end
   end.
 
-(* every key the model hands to http.NewRequest must be in the recorded table:
-   a miss is a disagreement, never a default *)
+(* every key the model hands to http.NewRequest, and every header set it hands to cachecontrol,
+   must be in the recorded tables: a miss is a disagreement, never a default *)
 Definition http_key (cli : bool) (gw : string) (u : string) : option string :=
   if has_prefix "http://" u || has_prefix "https://" u then Some u
   else if has_prefix "ipfs://" u then
     if cli then None else if String.eqb gw "" then None else Some (gateway_url gw (drop 7 u))
   else None.
 
-Definition table_complete (r : rcfg) (ops : list op) : bool :=
+Definition table_complete (cctab : list ccentry) (r : rcfg) (ops : list op) : bool :=
   match r with
   | RCfg _ _ cli gw tab =>
       forallb (fun o => match o with
@@ -103,6 +154,8 @@ Definition table_complete (r : rcfg) (ops : list op) : bool :=
                                     | Some k => match lookup_s k tab with Some _ => true | None => false end
                                     | None => true
                                     end
+                        | Serve _ (RResp _ _ p) =>
+                            match cc_of_table cctab p with Some _ => true | None => false end
                         | _ => true
                         end) ops
   end.
@@ -139,7 +192,7 @@ Fixpoint all_agree {A B} (f : A -> B -> bool) (a : list A) (b : list B) : bool :
   | _, _ => false
   end.
 
-(* what engine.Get answered for a key after the history *)
+(* what engine.Get answered for a key after the history / what the raw map holds *)
 Inductive rdump :=
 | DHit (v : int) (zero : bool) (neg : bool) (e : int)   (* version; expiry: zero time / virtual seconds *)
 | DMiss
@@ -161,23 +214,36 @@ Definition dump_agree (m : getres) (o : rdump) : bool :=
   | _, _ => false
   end.
 
-Record hcase := { h_id : int; h_cfg : rcfg; h_ops : list rop; h_obs : list robs;
-                  h_keys : list string; h_dump : list rdump }.
-Definition mkh (id : int) (c : rcfg) (ops : list rop) (obs : list robs)
-               (keys : list string) (dmp : list rdump) : hcase :=
-  {| h_id := id; h_cfg := c; h_ops := ops; h_obs := obs; h_keys := keys; h_dump := dmp |}.
-
-Definition case_agrees (c : hcase) : bool :=
-  match cfg_of (h_cfg c), ops_of (h_ops c) with
-  | Some cfg, Some ops =>
-      table_complete (h_cfg c) ops &&
-      all_agree obs_agree (observe cfg init ops) (h_obs c) &&
-      all_agree dump_agree (dump cfg (run cfg ops) (h_keys c)) (h_dump c)
+Definition raw_agree (m : option (doc * etime)) (o : rdump) : bool :=
+  match m, o with
+  | Some (d, e), DHit v zero neg z =>
+      Z.eqb d (zi v) && etime_eqb e (if zero then TZero else TAt (zs neg z))
+  | None, DMiss => true
   | _, _ => false
   end.
 
-Definition hmismatches (cs : list hcase) : list int :=
-  fold_right (fun c acc => if case_agrees c then acc else h_id c :: acc) [] cs.
+(* h_raw = [] when the raw map is not observable (cache off, default engine without hook access) *)
+Record hcase := { h_id : int; h_cfg : rcfg; h_ops : list rop; h_obs : list robs;
+                  h_keys : list string; h_dump : list rdump; h_raw : list rdump }.
+Definition mkh (id : int) (c : rcfg) (ops : list rop) (obs : list robs)
+               (keys : list string) (dmp : list rdump) (raw : list rdump) : hcase :=
+  {| h_id := id; h_cfg := c; h_ops := ops; h_obs := obs; h_keys := keys; h_dump := dmp; h_raw := raw |}.
+
+Definition case_agrees (cctab : list ccentry) (c : hcase) : bool :=
+  match cfg_of cctab (h_cfg c), ops_of (h_ops c) with
+  | Some cfg, Some ops =>
+      table_complete cctab (h_cfg c) ops &&
+      all_agree obs_agree (observe cfg init ops) (h_obs c) &&
+      all_agree dump_agree (dump cfg (run cfg ops) (h_keys c)) (h_dump c) &&
+      match h_raw c with
+      | [] => true
+      | raw => all_agree raw_agree (rawdump (run cfg ops) (h_keys c)) raw
+      end
+  | _, _ => false
+  end.
+
+Definition hmismatches (cctab : list ccentry) (cs : list hcase) : list int :=
+  fold_right (fun c acc => if case_agrees cctab c then acc else h_id c :: acc) [] cs.
 
 (* ---- engine-level cases: Set/Get called directly on the cache engine ---- *)
 Inductive reop :=
@@ -203,10 +269,15 @@ Definition mke (id : int) (c : rcfg) (ops : list reop) : ecase :=
 
 Definition emismatches (cs : list ecase) : list int :=
   fold_right (fun c acc =>
-      match cfg_of (e_cfg c) with
+      match cfg_of [] (e_cfg c) with
       | Some cfg => if engine_run cfg init (e_ops c) then acc else e_id c :: acc
       | None => e_id c :: acc
       end) [] cs.
 
-Definition mismatches (hs : list hcase) (es : list ecase) : list int :=
-  hmismatches hs ++ emismatches es.
+(* id reported when the recorded cachecontrol table contradicts the assumption
+   `cc_respects_headers` of C19_no_reuse_headers *)
+Definition cc_assumption_id : int := 999999%uint63.
+
+Definition mismatches (cctab : list ccentry) (hs : list hcase) (es : list ecase) : list int :=
+  (if cc_table_respects_headers cctab then [] else [cc_assumption_id]) ++
+  hmismatches cctab hs ++ emismatches es.
